@@ -39,7 +39,10 @@ CLS = {
     'Transaction': T.Transaction, 'ShardAccount': A.ShardAccount, 'AccountBlock': A.AccountBlock, 'ImportFees': T.ImportFees,
     'MsgEnvelopeAny': T.MsgEnvelope, 'InMsg': T.InMsg, 'OutMsg': T.OutMsg, 'BlockExtra': B.BlockExtra, 'Block': B.Block,
     'ConfigParams': B.ConfigParams, 'BlockCreateStats': B.BlockCreateStats, 'McStateExtra': B.McStateExtra, 'McBlockExtra': B.McBlockExtra,
-    'ShardStateUnsplit': B.ShardStateUnsplit,
+    'ShardStateUnsplit': B.ShardStateUnsplit, 'LibRef': T.LibRef, 'OutAction': T.OutAction,
+    'ConfigProposalSetup': Cf.ConfigProposalSetup, 'ConfigVotingSetup': Cf.ConfigVotingSetup, 'ComplaintPricing': Cf.ComplaintPricing,
+    'BlockCreateFees': Cf.BlockCreateFees, 'StoragePrices': Cf.StoragePrices, 'GasLimitsPrices': Cf.GasLimitsPrices, 'ParamLimits': Cf.ParamLimits,
+    'BlockLimits': Cf.BlockLimits, 'MsgForwardPrices': Cf.MsgForwardPrices,
 }
 
 
